@@ -310,9 +310,9 @@ def insert_bounds_rule(chk, repo, clause):
                     n += 1
                     try:
                         bl = linear.linearise(bnd)
-                        extra = linear.floor_half_axioms(set(bnd.atoms(deep=False)) | {x for c, _ in lin_lits for x in c.atoms(deep=True)})
-                        low = linear.entails(cons + extra, linear.le(linear.Lin(), bl))
-                        high = linear.entails(cons + extra, linear.le(bl, linear.linearise(size)))
+                        ats = set(bnd.atoms(deep=True)) | {x for c, _ in lin_lits for x in c.atoms(deep=True)}
+                        low = linear.entails_with_axioms(cons, linear.le(linear.Lin(), bl), ats)
+                        high = linear.entails_with_axioms(cons, linear.le(bl, linear.linearise(size)), ats)
                     except linear.NotLinear as ex:
                         undecided.append(f'{name} {which} on axis {k}: {ex}')
                         continue
